@@ -17,6 +17,7 @@ Require Import List ZArith. Import ListNotations.
 Require Import F204.Base.Util F204.Base.Mach F204.Gen.Params F204.Gen.Guards F204.Gen.Oids
   F204.Hash.HashIface F204.Impl.Hashing F204.Impl.Encodings F204.Impl.MlDsa F204.Impl.Api F204.Spec.SpecMLDSA
   F204.Proofs.BitPackProofs F204.Proofs.SampleRefine F204.Proofs.KeygenRefine F204.Proofs.DeriveRefine F204.Proofs.SignRefine.
+Require Import F204.Proofs.RealHashes.
 Open Scope Z_scope.
 
 Theorem C03_sign_is_FIPS204_Sign : forall H, HashLaws H -> forall P, In P all_params -> forall fuel, Z.of_nat fuel * lz P < 65536 ->
@@ -93,6 +94,9 @@ Proof.
   - rewrite firstn_app. rewrite (shake128_len H HL). change (Z.to_nat 32 - Z.to_nat 32)%nat with 0%nat. cbn [firstn].
     rewrite app_nil_r. apply firstn_all2. rewrite (shake128_len H HL). reflexivity.
 Qed.
+
+(* non-vacuity of the hash hypothesis (see Proofs/RealHashes.v) *)
+Definition C03_for_the_executed_model := C03_sign_is_FIPS204_Sign real_hashes real_hashes_laws.
 
 Print Assumptions C03_sign_is_FIPS204_Sign.
 Print Assumptions C03_hash_sign_is_FIPS204_HashSign.
